@@ -27,8 +27,8 @@ try:
                 import traceback; traceback.print_exc()
                 print(rid, 'CRASH', e); total += 1
                 continue
-            if len(res.instances) < ru.floor:
-                print('%s [%s] BELOW FLOOR %d<%d' % (rid, cfg, len(res.instances), ru.floor)); total += 1
+            if len(res.instances) < ru.floor_for(cfg):
+                print('%s [%s] BELOW FLOOR %d<%d' % (rid, cfg, len(res.instances), ru.floor_for(cfg))); total += 1
             for v in res.violations:
                 total += 1
                 print('!! [%s] %s %s | %s' % (cfg, v.key, v.where.replace(wt + '/', ''), v.msg))
